@@ -249,9 +249,16 @@ func (w *verifWorld) inv(check func(bool, string)) {
 }
 
 func (w *verifWorld) assumeInv() { w.inv(func(c bool, _ string) { verifAssume(c) }) }
+
+// assertInv: Inv_gb is re-established by the operation.  Every pool property is decided by the
+// inductive argument "from any Inv_gb state, one operation ..." - if an operation leaves Inv_gb, that
+// argument is void for all of them, so a broken conjunct counts for every pool property (the
+// conjunct's own label says which part of the representation it is about).
 func (w *verifWorld) assertInv() {
 	verifBatch(true)
-	w.inv(func(c bool, label string) { verifAssert(c, label) })
+	w.inv(func(c bool, label string) {
+		verifAssert(c, "C01,C02,C03,C04,C05,C06,C07,C08,C09,C20: Inv_gb not re-established: "+label)
+	})
 	verifBatch(false)
 }
 
@@ -299,7 +306,11 @@ func verifMkWorld() *verifWorld {
 	}
 	for x := 0; x < vK; x++ {
 		w.keys[x] = verifStr("key" + verifD(x))
-		verifAssume(w.keys[x] != "")
+		if x > 0 {
+			// keys[0] may be the empty string: a BIND reply with an empty key binds it, although no call
+			// is ever routed by it
+			verifAssume(w.keys[x] != "")
+		}
 		for y := 0; y < x; y++ {
 			verifAssume(w.keys[x] != w.keys[y])
 		}
@@ -355,7 +366,7 @@ func (w *verifWorld) fill(sfx string) {
 	gb.csEvltr.numReady, gb.csEvltr.numConnecting, gb.csEvltr.numTransientFailure = verifU64("nr"+sfx), verifU64("nc"+sfx), verifU64("nt"+sfx)
 	gb.state = connectivity.State(verifInt("gbstate" + sfx))
 	verifAssume(gb.state >= 0 && gb.state <= 3)
-	gb.rrRefId = verifU32("rrRefId" + sfx)
+	verifSetInt(&gb.rrRefId, uint64(verifU32("rrRefId"+sfx))) // (whatever integer type the cursor has)
 	for j := 0; j < vR; j++ {
 		r := w.refs[j]
 		d := verifD(j)
